@@ -203,8 +203,7 @@ def oracle_c03(case, i, ep):
         sc = ep_scale(f0)
         for k, fk in lst:
             for path, v in fk.items():
-                tol = _tol(sc / (a if path.startswith("balance_m2/") and a > 0 else 1))
-                tol = max(tol, _tol(sc))
+                tol = tol_for(path, f0, sc)
                 if path.startswith("rer") or path == "k_exp":
                     continue
                 if any(x in "/" + path for x in ("/we/b/", "/we/b_by_srv/")):
@@ -245,6 +244,19 @@ def rer_tol(fl, sc):
     if tot > 0:
         t += 8 * _tol(sc) * (1 + abs(fl.get("rer", Fraction(0)))) / tot
     return t
+
+
+def tol_for(path, fl, sc):
+    """comparison tolerance for one flattened EP path: ratios by conditioning, per-m2 values scaled by 1/area"""
+    if path.startswith("rer"):
+        return rer_tol(fl, sc)
+    if "/f_match/" in path:
+        return Fraction(1, 10000)
+    if path.startswith("balance_m2/"):
+        a = fl.get("arearef", Fraction(1))
+        if a > 0:
+            return _tol(sc / a)
+    return _tol(sc)
 
 
 def oracle_c04(case, i, ep):
